@@ -320,6 +320,7 @@ type rawReq struct {
 	Hdr     [][2]string
 	Body    string
 	Cert    bool
+	CertAlt int // 0: per Cert; 1: a certificate of ANOTHER key; 2: a certificate object without content (nothing parsed)
 	Note    string
 	Route   string   // canonical route this request aims at (for signatures), "" = unknown
 	Present []string // one-time credentials presented
@@ -376,6 +377,12 @@ func (w *c13W) do(r rawReq) (res rawRes) {
 	w.cert = nil
 	if r.Cert {
 		w.cert = certCache[0]
+	}
+	switch r.CertAlt {
+	case 1:
+		w.cert = certCache[1]
+	case 2:
+		w.cert = &x509.Certificate{}
 	}
 	w.cbFailed = false
 	var plan map[int]Fault
@@ -1042,7 +1049,7 @@ func c13Replay(w *c13W, rq rawReq, res rawRes) map[string]any {
 	if len(tgt) > 3000 {
 		tgt = tgt[:3000] + "..."
 	}
-	return map[string]any{"world": w.name, "method": rq.Method, "target": tgt, "headers": rq.Hdr, "body": body, "client_cert": rq.Cert,
+	return map[string]any{"world": w.name, "method": rq.Method, "target": tgt, "headers": rq.Hdr, "body": body, "client_cert": rq.Cert, "client_cert_variant": rq.CertAlt,
 		"policy": w.polMode, "ciba_validation": w.baMode, "storage_fault_at_call": rq.Fault,
 		"status": res.Status, "content_type": res.CT, "response_body": truncate(res.Body, 600), "location": truncate(res.Loc, 300),
 		"panic": res.Panic, "stack": truncate(res.Stack, 3000)}
@@ -1327,8 +1334,10 @@ func init() {
 		c13Incomplete(ctx)
 		t2 := time.Now()
 		c13EmptyCreds(ctx)
-		ctx.Meta.Extra["seconds_stream_incomplete_empty"] = []float64{t1.Sub(t0).Seconds(), t2.Sub(t1).Seconds(), time.Since(t2).Seconds()}
-		ctx.Meta.Rule = "malformed stream through provider.Handler() of providers with every optional feature enabled (alias and copy storage, with and without path prefix): all methods x routes and near-routes, broken percent-encoding, duplicated and 64 KB parameters, JWS/JWE/UUID-shaped and 99-char junk in every token-bearing field, junk DPoP/Authorization headers, invalid/huge/ill-typed JSON to /register, unparsable pushed redirect URIs; then well-formed-but-incomplete artifacts (correctly signed DPoP proofs, client assertions, request objects by value / reference / JWE / CIBA, id_token_hints with each header member and claim removed, nulled or retyped in turn) at every entry point in every state that changes what the handler expects (dpop_jkt or not, code of a plain / dpop_jkt / pushed / proof-bound session, refresh token of a bound / unbound grant of a public / confidential client, bound / unbound token at userinfo, introspection, revocation), and empty / missing / blank values in every credential-bearing field (code, refresh_token, auth_req_id, request_uri, token, bearer token, callback id, registration id) by authenticated and unauthenticated clients while the store holds other parties' pushed, in-progress, CIBA and code sessions and client_credentials / code / implicit / jwt-bearer / CIBA grants; distinct = distinct (probe kind, method, route, status, error code)"
+		t3 := time.Now()
+		c13Binding(ctx)
+		ctx.Meta.Extra["seconds_stream_incomplete_empty_binding"] = []float64{t1.Sub(t0).Seconds(), t2.Sub(t1).Seconds(), t3.Sub(t2).Seconds(), time.Since(t3).Seconds()}
+		ctx.Meta.Rule = "malformed stream through provider.Handler() of providers with every optional feature enabled (alias and copy storage, with and without path prefix): all methods x routes and near-routes, broken percent-encoding, duplicated and 64 KB parameters, JWS/JWE/UUID-shaped and 99-char junk in every token-bearing field, junk DPoP/Authorization headers, invalid/huge/ill-typed JSON to /register, unparsable pushed redirect URIs; then well-formed-but-incomplete artifacts (correctly signed DPoP proofs, client assertions, request objects by value / reference / JWE / CIBA, id_token_hints with each header member and claim removed, nulled or retyped in turn) at every entry point in every state that changes what the handler expects (dpop_jkt or not, code of a plain / dpop_jkt / pushed / proof-bound session, refresh token of a bound / unbound grant of a public / confidential client, bound / unbound token at userinfo, introspection, revocation), and empty / missing / blank values in every credential-bearing field (code, refresh_token, auth_req_id, request_uri, token, bearer token, callback id, registration id) by authenticated and unauthenticated clients while the store holds other parties' pushed, in-progress, CIBA and code sessions and client_credentials / code / implicit / jwt-bearer / CIBA grants; then sender-constrained artifacts used without their proof: per binding mechanism (DPoP, mutual-TLS certificate; both enabled but optional) an artifact bound at issuance by a valid flow - refresh token of a confidential / public / private_key_jwt / stored client, code of a session bound at /par or by dpop_jkt, CIBA auth_req_id bound at /bc-authorize, access token at /userinfo (GET either scheme, POST), /introspect, /revoke and Provider.TokenInfoFromRequest, bound client_credentials token - used with the proof right / absent / of another key / malformed / of the other mechanism only / both; distinct = distinct (probe kind, method, route, status, error code)"
 	}})
 	register(&Suite{Name: "c13model", Run: func(ctx *RunCtx) {
 		c13ModelCases(ctx, ctx.N(40, 600))
